@@ -27,6 +27,15 @@ def handle : Handler := fun j => do
         ("fast", jList jRat (pts.map fun p => fastSample im xmin ymin xmax ymax (p.getD 0 0) (p.getD 1 0)))])
     | _ => throw "box"
   | "cubic" => return ok (Json.bool (cubicDomainOK (← getRat j "L")))
+  | "revmap" =>
+    match reverseLineMapping (← getRatList j "F") (← getRatList j "ts") (← getRatList j "X") with
+    | some r => return ok (jList jRat r)
+    | none => return ok Json.null
+  | "straight" =>
+    let R : Rot := { c := (← getRat j "c"), s := (← getRat j "s") }
+    match straightGrid R (← getRat j "left") (← getRat j "y0") (← getNat j "n") (← getRat j "h0") (← getRat j "h1") (← getNat j "H") with
+    | some g => return ok (jList (jList fun (p : Rat × Rat) => Json.arr #[jRat p.1, jRat p.2]) g)
+    | none => return ok Json.null
   | _ => throw s!"C10: unknown op {op}"
 
 end Drv.C10
